@@ -3,8 +3,8 @@ From FJ Require Import Lib.Base.
 
    The method: for every function of the model, which raw (non-library) exceptions can it let out?  `raw_in S r` says
    that a raw exit of r lies in the set S.  The sets grow along the pipeline:
-     E1 = {ValueError, Hang}                     operators and expression evaluation (ValueError: an unprintable integer
-                                                  inside the handler that builds the message; Hang: a power that never ends)
+     E1 = {Hang}                                 operators and expression evaluation (a power that never ends; every
+                                                  exception an operator raises is wrapped as a library error)
      E2 = E1 + RecursionError                     entry points of the recursive Expr traversals, the parser stage
      E4 = E2 + MemoryError                        label resolution (insert_padding)
    Macro resolution stays within E2 (self.macros[...] is only indexed with names that were looked up before).
@@ -15,7 +15,7 @@ Local Open Scope Z_scope.
 
 Definition raw_in (S : rawexn -> Prop) {A} (r : res A) : Prop := forall x, r = RawExn x -> S x.
 
-Definition E1 (x : rawexn) : Prop := x = ValueError \/ x = Hang.
+Definition E1 (x : rawexn) : Prop := x = Hang.
 Definition E2 (x : rawexn) : Prop := E1 x \/ x = RecursionError.
 Definition E4 (x : rawexn) : Prop := E2 x \/ x = MemoryError.
 
@@ -118,8 +118,8 @@ Proof.
     apply raw_in_bind; [exact Ha|intros a' _]. apply raw_in_bind; [exact IHl|intros; rawsolve].
   - intros args' _. destruct (forallb is_int args'); [|rawsolve].
     destruct (op_apply cfg o (ints_of args')) as [z|k|x]; [rawsolve| |].
-    + dif; rawsolve.
-    + destruct x; try dif; rawsolve.
+    + rawsolve.
+    + destruct x; rawsolve.
 Qed.
 
 Lemma eval_new_raw cfg sg e : raw_in E2 (eval_new cfg sg e).
@@ -166,9 +166,7 @@ Qed.
 Lemma align_raw cfg st n : raw_in E2 (align_current_address cfg st n).
 Proof.
   unfold align_current_address. cbv zeta.
-  destruct (negb (p_addr st mod (2 * c_w cfg) =? 0)).
-  - destruct (unprintable (p_addr st)); rawsolve.
-  - dif; [|rawsolve]. dif; rawsolve.
+  destruct (negb (p_addr st mod (2 * c_w cfg) =? 0)); [rawsolve|]. dif; rawsolve.
 Qed.
 
 Section ResolveProps.
@@ -200,19 +198,11 @@ Proof.
   - (* WordFlip *) repeat (apply raw_in_bind; [ev3|intros]). rawsolve.
   - (* Pad *)
     apply raw_in_bind; [ev3|intros e' _].
-    apply raw_in_bind.
-    + pose proof (exact_eval_raw cfg (p_labels st) e') as H.
-      destruct (exact_eval cfg (p_labels st) e') as [z|k|x].
-      * rawsolve.
-      * destruct (has_unprintable e'); rawsolve.
-      * exact H.
-    + intros n _. destruct (n <=? 0).
-      * destruct (unprintable n); rawsolve.
-      * apply align_raw.
+    apply raw_in_bind; [ev3|].
+    intros n _. destruct (n <=? 0); [rawsolve|apply align_raw].
   - (* Label *)
     destruct (dict_get sg name) as [v|]; [|apply insert_label_raw].
-    destruct v; try (match goal with |- context [has_unprintable ?v] => destruct (has_unprintable v) end; rawsolve).
-    apply insert_label_raw.
+    destruct v; try rawsolve. apply insert_label_raw.
   - (* MacroCall *)
     apply raw_in_bind; [ev3|intros cargs' _].
     destruct (find_macro macros (call_name name cargs')) eqn:F; [|rawsolve].
@@ -290,7 +280,7 @@ Lemma writer_add_data_spec cfg wr words n :
   (forall wr', writer_add_data cfg wr words n = Ok wr' -> data_ok cfg wr -> data_ok cfg wr').
 Proof.
   unfold writer_add_data. destruct (find (fun x => negb (word_ok cfg x)) words) as [bad|] eqn:F.
-  - split; [destruct (unprintable bad); rawsolve|]. destruct (unprintable bad); discriminate.
+  - split; [rawsolve|discriminate].
   - split; [rawsolve|]. intros wr' E Hd. inversion E; subst. unfold data_ok; simpl.
     rewrite forallb_app. rewrite (find_none_forallb _ _ F). exact Hd.
 Qed.
@@ -394,7 +384,7 @@ Lemma labels_step_spec cfg lb st op :
   (forall st', labels_step cfg lb st op = Ok st' -> data_ok cfg (b_wr st) -> data_ok cfg (b_wr st')).
 Proof.
   assert (Hop : forall k es, raw_in E4 (op_message k es) /\ forall st', op_message k es = Ok st' -> False).
-  { intros k es. unfold op_message. destruct (existsb has_unprintable es); split; try rawsolve; discriminate. }
+  { intros k es. unfold op_message. split; [rawsolve|discriminate]. }
   assert (Hin : forall (e : expr) es (f : Z -> res bstate) (Q : bstate -> Prop),
              (forall z, raw_in E4 (f z) /\ forall st', f z = Ok st' -> Q st') ->
              raw_in E4 (in_op (exact_eval cfg lb e) es f) /\ forall st', in_op (exact_eval cfg lb e) es f = Ok st' -> Q st').
@@ -465,7 +455,7 @@ Qed.
 Lemma verdict_cases cfg t : has_main t = true ->
   match o_verdict (assemble_model cfg t) with
   | VOk | VLib _ | VHang => True
-  | VCatchAll x => x = ValueError \/ x = RecursionError \/ x = MemoryError
+  | VCatchAll x => x = RecursionError \/ x = MemoryError
   end.
 Proof.
   intros Hmain. unfold assemble_model.
@@ -483,13 +473,13 @@ Proof.
 Qed.
 
 Theorem specific_under_guards cfg t : has_main t = true ->
-  counts_materialisable cfg t = true -> expr_depth_ok cfg t = true -> diagnostics_printable cfg t = true ->
+  counts_materialisable cfg t = true -> expr_depth_ok cfg t = true ->
   specific (assemble_model cfg t) = true.
 Proof.
-  unfold counts_materialisable, expr_depth_ok, diagnostics_printable, specific.
+  unfold counts_materialisable, expr_depth_ok, specific.
   intros Hmain. pose proof (verdict_cases cfg t Hmain) as H.
-  destruct (o_verdict (assemble_model cfg t)) as [| k | x |]; intros G1 G2 G3; try reflexivity; try discriminate.
-  destruct H as [H|[H|H]]; subst x; discriminate.
+  destruct (o_verdict (assemble_model cfg t)) as [| k | x |]; intros G1 G2; try reflexivity; try discriminate.
+  destruct H as [H|H]; subst x; discriminate.
 Qed.
 
 (* the output path is only touched by the last step, and that step cannot fail: every word handed to the Writer has been
